@@ -3874,8 +3874,14 @@ where
       }
       Value::Text(s) => {
         if is_ident_uri_data_type(self.state.cddl, ident) {
-          if let Err(e) = uriparse::URI::try_from(&**s) {
-            self.add_error(format!("expected URI data type, decoding error: {}", e));
+          // `URI::try_from` is `URIReference::try_from` plus the check below, but converts
+          // the error with an `unwrap()` that panics for some inputs (e.g. "::")
+          match uriparse::URIReference::try_from(&**s) {
+            Ok(r) if r.is_relative_reference() => {
+              self.add_error("expected URI data type, decoding error: not URI".to_string())
+            }
+            Ok(_) => (),
+            Err(e) => self.add_error(format!("expected URI data type, decoding error: {}", e)),
           }
         } else if is_ident_b64url_data_type(self.state.cddl, ident) {
           if let Err(e) = base64_url::decode(s) {
